@@ -20,7 +20,7 @@ fn gen_a(r: &mut Rng) -> A {
 }
 fn gen_s(r: &mut Rng) -> String {
     let l = *r.pick(&[0usize, 1, 5, 22, 23, 24, 60, 200]);
-    (0..l).map(|i| (b'a' + ((i as u8 + r.next_u64() as u8) % 26)) as char).collect()
+    (0..l).map(|i| (b'a' + ((i as u8).wrapping_add(r.next_u64() as u8) % 26)) as char).collect()
 }
 fn gen_b(r: &mut Rng) -> B {
     B { s: gen_s(r), x: r.next_u64() as u32, v: (0..r.below(9)).map(|_| r.next_u64() as u16).collect(), y: r.next_u64() as u8 }
